@@ -84,9 +84,10 @@ class MiniCtx:
 
 def split_opfile(path):
     lines = [l for l in open(path).read().splitlines() if l and not l.startswith('#')]
-    header = [l for l in lines if not l.startswith('op ') and not l.startswith('history ')]
-    name = [l for l in lines if l.startswith('history ')][0].split()[1]
-    ops = [l for l in lines if l.startswith('op ')]
+    hi = [i for i, l in enumerate(lines) if l.startswith('history ')][0]
+    header = lines[:hi]
+    name = lines[hi].split()[1]
+    ops = lines[hi + 1:]        # op lines and, in scheduled histories, the thread / order / stall lines between them
     return header, name, ops
 
 
@@ -122,6 +123,36 @@ def replay(pid, path):
         return 1
     header, name, ops = split_opfile(path)
     work = os.path.join(CACHE, 'replay-%d' % os.getpid())
+    fs = [h for h in header if h.startswith('faultspec ')]
+    if fs:
+        # a history with one failing file-system call (C04 second sentence, C07 under faults): re-run under the shim
+        kv = dict(x.split('=', 1) for x in fs[0].split()[1:])
+        build_shim()
+        f = os.path.join(work, 'r.ops')
+        os.makedirs(work, exist_ok=True)
+        write_opfile(f, header, [(name, ops)])
+        env = dict(os.environ, LD_PRELOAD=SHIM, UVH_CUT_OP=kv['target'], SHIM_FAIL=kv['k'])
+        if kv.get('reads') == '1':
+            env['SHIM_READS'] = '1'
+        r = subprocess.run([UVH, 'replay', f, os.path.join(work, 'w')], capture_output=True, text=True, env=env)
+        shutil.rmtree(work, ignore_errors=True)
+        lines = [l for l in r.stdout.splitlines() if l.startswith('out=')]
+        print('\n'.join([x for x in r.stderr.splitlines() if 'SHIM FAIL' in x] + lines))
+        tgt = int(kv['target'])
+        bad = []
+        if len(lines) != len([o for o in ops if o.startswith('op ')]):
+            bad.append('the run did not complete (%d results)' % len(lines))
+        elif kv['kind'] == 'c07':
+            bad = ['patch 2 handed out at op %d' % j for j in range(tgt - 1, len(lines)) if parse_line(lines[j])['out'] in ('2', 'path:2')]
+        else:
+            bb = set(int(x) for x in kv['bad'].split(',')) if kv['bad'] != '-' else set()
+            bad = ['patch %d selected at op %d: %s' % (n, j, why) for (j, n, why) in c04_judge_fail(ops[:tgt], ops[tgt:], lines, kv['kind'], bb)]
+        for b in bad:
+            print('MONITOR: ' + b)
+        if bad:
+            print('VIOLATION property=%s replay=%s' % (pid, path))
+            return 1
+        return 0
     if any(o.startswith('t0 op init') for o in ops):
         # two threads initialising concurrently (C14): implementation only, judged by the same rule as the check
         _, impl, extras = run_both(header, [(name, ops)], work, impl_only=True)
@@ -135,6 +166,40 @@ def replay(pid, path):
             print('VIOLATION property=%s replay=%s' % (pid, path))
             return 1
         return 0
+    if sched_shape(ops) is not None:
+        # one scheduled interleaving of real threads (C11, C17, C18, C12 stalls): model and implementation run the same
+        # order under the lock-discipline observer; re-judged by the rules of the check it came from
+        model, impl, extras = run_both(header, [(name, ops)], work, lockcheck=True)
+        shutil.rmtree(work, ignore_errors=True)
+        print('model:')
+        print('\n'.join(model.get(name, [])))
+        print('impl:')
+        print('\n'.join(impl.get(name, [])))
+        rc = 0
+        d = diff_traces(model, impl)
+        if d:
+            print('DIVERGENCE at op %d' % d[0][1])
+            rc = 1
+        extras, lw = unlocked_writes(extras, {name: ops}, header)
+        msgs = [m_[2] for m_ in lw]
+        npre, uop, oops, order_idx = sched_shape(ops)
+        sts = [parse_line(l) for l in impl.get(name, [])]
+        if len(sts) > npre:
+            if pid == 'C11' and len(sts) == npre + 9:
+                msgs += [m_ for (_, m_) in judge_c11(MiniCtx(header), ops, sts)]
+            else:
+                msgs += sched_event_faults(sts[npre], [[uop], oops])
+        else:
+            msgs.append('the scheduled run did not complete (%d results)' % len(sts))
+        for m_ in msgs:
+            print('MONITOR: ' + m_)
+            rc = 1
+        if not rc:
+            print('(not reproduced by the generic rules; the judgement recorded by the check is the first line of the file)')
+            print(open(path).readline().rstrip())
+        else:
+            print('VIOLATION property=%s replay=%s' % (pid, path))
+        return rc
     if 'http on' in header:
         # real-transport history (C06): re-run on the implementation; the judgement is in the file's first line
         _, impl, extras = run_both(header, [(name, ops)], work, impl_only=True)
@@ -144,7 +209,7 @@ def replay(pid, path):
         print('\n'.join(impl.get(name, [])))
         print('VIOLATION property=%s replay=%s' % (pid, path))
         return 1
-    model, impl, extras = run_both(header, [(name, ops)], work)
+    model, impl, extras = run_both(header, [(name, ops)], work, lockcheck=pid in ('C11', 'C12', 'C14', 'C17', 'C18'))
     shutil.rmtree(work, ignore_errors=True)
     print('model:')
     print('\n'.join(model.get(name, [])))
@@ -152,6 +217,9 @@ def replay(pid, path):
     print('\n'.join(impl.get(name, [])))
     d = diff_traces(model, impl)
     rc = 0
+    for m_ in unlocked_writes(extras, {name: ops}, header)[1]:
+        print('MONITOR: ' + m_[2])
+        rc = 1
     if d:
         print('DIVERGENCE at op %d' % d[0][1])
         rc = 1
@@ -1108,7 +1176,9 @@ def run_C18(pid, tier, seed, model_ok=True):
                         lines = [al.init] + al.seq(PFX[stt])
                         hs.append((name, lines + ['t0 ' + al.ops[uk][0]] + ['t1 ' + x for x in t1] + ['order ' + order, 'op curnum', 'op kill', al.init, 'op curnum']))
                         meta[name] = (len(lines), handed, tk, uk)
-        model, impl, ex = run_both(header, hs, work, impl_only=not model_ok)
+        model, impl, ex = run_both(header, hs, work, impl_only=not model_ok, lockcheck=True)
+        ex, lw = unlocked_writes(ex, dict(hs), header)
+        a['monitor_fail'] += lw
         a['extras'] += ex
         if model_ok:
             for (h, idx, ml, il) in diff_traces(model, impl):
@@ -1158,7 +1228,9 @@ def run_C17(pid, tier, seed, model_ok=True):
                         lines = [al.init] + al.seq(PFX[stt])
                         hs.append((name, lines + ['t0 ' + al.ops[uk][0]] + ['t1 ' + x for x in oops] + ['order ' + order, 'op nextnum']))
                         meta[name] = (len(lines), [[al.ops[uk][0]], oops])
-        model, impl, ex = run_both(header, hs, work, impl_only=not model_ok)
+        model, impl, ex = run_both(header, hs, work, impl_only=not model_ok, lockcheck=True)
+        ex, lw = unlocked_writes(ex, dict(hs), header)
+        a['monitor_fail'] += lw
         a['extras'] += ex
         if model_ok:
             for (h, idx, ml, il) in diff_traces(model, impl):
@@ -1179,6 +1251,68 @@ def run_C17(pid, tier, seed, model_ok=True):
     finally:
         ctx.cleanup()
         shutil.rmtree(work, ignore_errors=True)
+
+
+def sched_shape(ops):
+    """a scheduled history = op lines, then 't0 <op>', 't1 <op>'.., 'order ..', then op lines:
+    (number of op lines before the schedule, thread 0 op line, thread 1 op lines, index of the order line)"""
+    t0 = [i for i, o in enumerate(ops) if o.startswith('t0 ')]
+    od = [i for i, o in enumerate(ops) if o.startswith('order ')]
+    if not t0 or not od:
+        return None
+    npre = len([o for o in ops[:t0[0]] if o.startswith('op ')])
+    return npre, ops[t0[0]][3:], [o[3:] for o in ops if o.startswith('t1 ')], od[0]
+
+
+def judge_c11(ctx, ops, sts):
+    """the C11 rules on one scheduled history (C01-C03 after every interleaving); returns [(index into ops, message)]"""
+    npre, uop, oops, order_idx = sched_shape(ops)
+    fails = []
+    pre, post = sts[npre - 1], sts[npre]
+    ps = pstate(post)
+    for slot in ('nb', 'lb', 'cb'):
+        if ps[slot] and ps[slot]['num'] in ps['bad']:
+            fails.append((order_idx, 'C11: after the interleaving patch %d is banned AND is the %s patch (outputs %s)' % (ps[slot]['num'], slot, post['out'])))
+    for msg in sched_event_faults(post, [[uop], oops]):
+        fails.append((order_idx, msg))
+    ppre = pstate(pre)
+    t1kinds = [x.split()[1] for x in oops]
+    if 'failure' in t1kinds and 'start' not in t1kinds and ppre['cb']:
+        n = ppre['cb']['num']
+        if n not in ps['bad'] or (ps['nb'] and ps['nb']['num'] == n):
+            fails.append((order_idx, 'C11: the boot failure of patch %d was reported during the update, yet afterwards it is %s (outputs %s)' % (
+                n, 'selected' if ps['nb'] and ps['nb']['num'] == n else 'not banned', post['out'])))
+    if t1kinds and t1kinds[0] == 'success' and ppre['cb'] and 'failure' not in t1kinds:
+        n = ppre['cb']['num']
+        u0 = gen.parse_op(uop)
+        touched = n in monitors.listed(u0) or (u0['resp'] and u0['resp']['patch'] and u0['resp']['patch']['num'] == n)
+        if not touched and (num(ps['lb']) != n or ps['cb'] is not None):
+            fails.append((order_idx, 'C11: the boot success of patch %d reported during the update was lost (lb=%s cb=%s)' % (n, num(ps['lb']), num(ps['cb']))))
+    # C01 on everything handed out after the interleaving
+    tail_ops = [gen.parse_op(o) for o in ops[npre + len(oops) + 2:]]
+    tail_sts = sts[npre + 1:]
+    full_ops = [gen.parse_op(o) for o in ops[:npre]] + [dict(kind='sched', raw='sched')] + tail_ops
+    for (idx, msg) in monitors.mon_C01(ctx, full_ops, sts):
+        fails.append((idx if idx < npre else order_idx + (idx - npre), msg))
+    # C03: the last good patch survives unless something in the interleaving concerns it
+    plb = pstate(pre)['lb']
+    if plb is not None and pre['arts'].get(plb['num'], '').startswith('F%d.' % plb['size']):
+        k = plb['num']
+        u = gen.parse_op(uop)
+        conc = k in monitors.listed(u) or (u['resp'] and u['resp']['patch'] and u['resp']['patch']['num'] == k)
+        pcb = pstate(pre)['cb']
+        for o in oops:
+            po = gen.parse_op(o)
+            if po['kind'] == 'success' and pcb and pcb['num'] != k:
+                conc = True
+            if po['kind'] in ('failure', 'start'):
+                conc = True
+            if po['kind'] in ('check', 'update') and (k in monitors.listed(po) or (po['resp'] and po['resp']['patch'] and po['resp']['patch']['num'] == k and po['kind'] == 'update')):
+                conc = True
+        if not conc:
+            if num(ps['lb']) != k or post['arts'].get(k) != pre['arts'].get(k):
+                fails.append((order_idx, 'C11/C03: interleaving lost the last good patch %d (lb=%s, artifact %s)' % (k, num(ps['lb']), post['arts'].get(k))))
+    return fails
 
 
 def run_C11(pid, tier, seed, model_ok=True):
@@ -1222,9 +1356,11 @@ def run_C11(pid, tier, seed, model_ok=True):
                         hs.append((name, lines + sched + tail))
                         meta[name] = (len(lines), upd[uk], oops, order)
         header = [h for h in ctx.header() if h != 'dls on']   # a scheduled update writes downloads/ outside the sequential step function
-        model, impl, extras = run_both(header, hs, work, impl_only=not model_ok)
+        model, impl, extras = run_both(header, hs, work, impl_only=not model_ok, lockcheck=True)
         opsof = dict(hs)
         divs, fails = [], []
+        extras, lw = unlocked_writes(extras, opsof, header)
+        fails += lw
         if model_ok:
             for (h, idx, ml, il) in diff_traces(model, impl):
                 divs.append((h, idx, ml, il, opsof[h], header))
@@ -1243,49 +1379,8 @@ def run_C11(pid, tier, seed, model_ok=True):
                 continue
             pre, post = sts[npre - 1], sts[npre]
             distinct.add((state_key(pre), uop, tuple(oops), post['out']))
-            ps = pstate(post)
-            for slot in ('nb', 'lb', 'cb'):
-                if ps[slot] and ps[slot]['num'] in ps['bad']:
-                    fails.append((name, npre, 'C11: after the interleaving patch %d is banned AND is the %s patch (outputs %s)' % (ps[slot]['num'], slot, post['out']), ops, header))
-            for msg in sched_event_faults(post, [[uop], oops]):
-                fails.append((name, npre, msg, ops, header))
-            ppre = pstate(pre)
-            t1kinds = [x.split()[1] for x in oops]
-            if 'failure' in t1kinds and 'start' not in t1kinds and ppre['cb']:
-                n = ppre['cb']['num']
-                if n not in ps['bad'] or (ps['nb'] and ps['nb']['num'] == n):
-                    fails.append((name, npre, 'C11: the boot failure of patch %d was reported during the update, yet afterwards it is %s (outputs %s)' % (
-                        n, 'selected' if ps['nb'] and ps['nb']['num'] == n else 'not banned', post['out']), ops, header))
-            if t1kinds and t1kinds[0] == 'success' and ppre['cb'] and 'failure' not in t1kinds:
-                n = ppre['cb']['num']
-                u0 = gen.parse_op(uop)
-                touched = n in monitors.listed(u0) or (u0['resp'] and u0['resp']['patch'] and u0['resp']['patch']['num'] == n)
-                if not touched and (num(ps['lb']) != n or ps['cb'] is not None):
-                    fails.append((name, npre, 'C11: the boot success of patch %d reported during the update was lost (lb=%s cb=%s)' % (n, num(ps['lb']), num(ps['cb'])), ops, header))
-            # C01 on everything handed out after the interleaving
-            tail_ops = [gen.parse_op(o) for o in ops[npre + len(oops) + 2:]]
-            tail_sts = sts[npre + 1:]
-            full_ops = [gen.parse_op(o) for o in ops[:npre]] + [dict(kind='sched', raw='sched')] + tail_ops
-            for (idx, msg) in monitors.mon_C01(ctx, full_ops, sts):
+            for (idx, msg) in judge_c11(ctx, ops, sts):
                 fails.append((name, idx, msg, ops, header))
-            # C03: the last good patch survives unless something in the interleaving concerns it
-            plb = pstate(pre)['lb']
-            if plb is not None and pre['arts'].get(plb['num'], '').startswith('F%d.' % plb['size']):
-                k = plb['num']
-                u = gen.parse_op(uop)
-                conc = k in monitors.listed(u) or (u['resp'] and u['resp']['patch'] and u['resp']['patch']['num'] == k)
-                pcb = pstate(pre)['cb']
-                for o in oops:
-                    po = gen.parse_op(o)
-                    if po['kind'] == 'success' and pcb and pcb['num'] != k:
-                        conc = True
-                    if po['kind'] in ('failure', 'start'):
-                        conc = True
-                    if po['kind'] in ('check', 'update') and (k in monitors.listed(po) or (po['resp'] and po['resp']['patch'] and po['resp']['patch']['num'] == k and po['kind'] == 'update')):
-                        conc = True
-                if not conc:
-                    if num(ps['lb']) != k or post['arts'].get(k) != pre['arts'].get(k):
-                        fails.append((name, npre, 'C11/C03: interleaving lost the last good patch %d (lb=%s, artifact %s)' % (k, num(ps['lb']), post['arts'].get(k)), ops, header))
             if len(samples) < 5 and rnd.random() < 0.01:
                 samples.append({'history': name, 'sched': ops[npre:npre + len(oops) + 2], 'result': tr[npre][:200]})
         if not samples and hs:
@@ -1336,8 +1431,9 @@ def run_C12(pid, tier, seed, model_ok=True):
                     order = ','.join(['0'] * 4 + ['1'] * 12 + ['0'] * 12)
                     ops = [al.init] + al.seq(PFX[pk]) + ['stall on', 't0 ' + al.ops[uk][0]] + ['t1 ' + x for x in t1] + ['order ' + order, 'stall off', 'op nextnum', 'op curnum']
                     stall.append(('S_%s_%s_%s' % (pk, k, uk), ops))
-        model, impl, extras = run_both(header, hs + stall, work, impl_only=not model_ok)
+        model, impl, extras = run_both(header, hs + stall, work, impl_only=not model_ok, lockcheck=True)
         opsof = dict(hs + stall)
+        extras, lock_fails = unlocked_writes(extras, opsof, header)
         divs, fails = [], []
         if model_ok:
             for (h, idx, ml, il) in diff_traces(model, impl):
@@ -1392,6 +1488,7 @@ def run_C12(pid, tier, seed, model_ok=True):
                                 o1[2], 'sent by it (%s)' % sent if sent else 'not sent'), ops, header))
             if len(samples) < 5 and rnd.random() < 0.01:
                 samples.append({'history': name, 'last': tr[-1][-120:]})
+        fails += lock_fails
         for x in extras:
             if 'DEPTH-VIOLATION' in x or 'did not complete' in x:
                 fails.append(('harness', 0, 'C12: ' + x, ['op nextnum'], header))
@@ -1407,6 +1504,26 @@ def run_C12(pid, tier, seed, model_ok=True):
 
 
 
+def unlocked_writes(extras, opsof, header):
+    """splits the lock-discipline reports off the extras of a run_both(lockcheck=True): every mutation of state.json,
+    patches_state.json or patches/ by a library thread that did not hold the config lock.  The model's calls are atomic
+    (Blocks.v / LockSem.v: a critical section is one step) only because no such write exists; one that does is a
+    violation of the concurrency properties with the history as replay.  Returns (other extras, monitor failures)."""
+    rest, fails, seen = [], [], set()
+    for x in extras:
+        m = re.match(r'impl: UNLOCKED-WRITE hist=(\S+) op=(\d+) (.*)', x)
+        if not m:
+            rest.append(x)
+            continue
+        h = m.group(1)
+        if h in opsof and h not in seen:
+            seen.add(h)
+            fails.append((h, len(opsof[h]) - 1, 'persisted state is mutated by a thread that does not hold the config lock (%s, during op %s): '
+                          'calls are not atomic, a concurrent report or query can be overwritten' % (m.group(3), m.group(2)), opsof[h], header))
+    return rest, fails
+
+
+
 # ------------------------------------------------------------------ C13 (malformed inputs, call orders)
 def json_mutants(rnd, n):
     import json as J
@@ -1417,6 +1534,13 @@ def json_mutants(rnd, n):
     sj = {"release_version": "1.0.0", "queued_events": [ev]}
     weird = [None, True, -1, 0, 2 ** 64 - 1, 2 ** 64, 1e30, -0.5, "", "x" * 3000, [], {}, [[[]]], "\u0000", {"number": "1"}, [1, 2], "1.0.0"]
     outs = []
+    # well-formed state whose queued events carry extreme clock readings (an event stamped ahead of the clock, at the
+    # epoch, at the ends of u64): the values are legal, only arithmetic on them can go wrong
+    for ts in (0, 1, 2 ** 31, 4102444800, 2 ** 62, 2 ** 63, 2 ** 64 - 1):
+        for cnt in (1, 3):
+            doc = J.loads(J.dumps(sj))
+            doc['queued_events'] = [dict(ev, timestamp=ts, patch_number=i + 1) for i in range(cnt)]
+            outs.append(('sj', J.dumps(doc).encode()))
     for _ in range(n):
         which = rnd.choice(['pj', 'sj'])
         doc = J.loads(J.dumps(pj if which == 'pj' else sj))
@@ -1473,6 +1597,8 @@ def run_C13(pid, tier, seed, model_ok=True):
             ctx.add_blob('mal%d' % i, data)
             pre = al.seq(rnd.choice([PFX['good1pend2'], PFX['good1boot2'], PFX['boot1'], ()]))
             tail = rnd.sample(api, 5)
+            if i < 14:      # the extreme-timestamp documents: make sure the queue is actually reported
+                tail = [al.ops['upnone'][0]] + tail
             hs_impl.append(('mal%d' % i, [al.init] + pre + ['op dmg raw%s @mal%d' % (which, i)] + tail + ['op kill', al.init] + rnd.sample(api, 4)))
         fsd = ['op dmg artisfile 2', 'op dmg artfileisdir 2', 'op dmg patchesisfile', 'op dmg pjisdir', 'op dmg artisfile 1', 'op dmg artfileisdir 1']
         for i, dmg in enumerate(fsd):
@@ -1659,15 +1785,7 @@ def run_C15(pid, tier, seed, model_ok=True):
 
 
 # ------------------------------------------------------------------ C04 (crash / fault injection)
-SHIM = os.path.join(CACHE, 'shim.so')
-
-
-def build_shim():
-    src = os.path.join(ROOT, 'shim', 'shim.c')
-    if not os.path.exists(SHIM) or os.path.getmtime(SHIM) < os.path.getmtime(src):
-        p = sh(['gcc', '-shared', '-fPIC', '-O1', '-o', SHIM, src, '-ldl'])
-        if p.returncode != 0:
-            raise InfraError('shim build failed: ' + p.stderr)
+# (SHIM, build_shim: uvlib)
 
 
 def c04_targets(ctx, al, tier):
@@ -1702,6 +1820,42 @@ def c04_targets(ctx, al, tier):
         T.append(('%s_RV' % stt, pre + ['op kill'], [op_init(rel=REL2)], rv_init, 'relchange'))
         T.append(('%s_sjgarbage_R' % stt, pre + ['op kill', 'op dmg sj garbage'], [al.init], init_toks, 'relchange'))
     return T
+
+
+def c04_judge_fail(ops, tail, lines, kind, bad_before):
+    """one file-system call of the last op of `ops` failed and execution continued (`lines` = the whole trace incl. tail):
+    whatever is selected by the faulted call itself and afterwards, in this process and at the next launch, must be intact,
+    not on the ban list of the state it is selected from, and of the current release (bad_before: unused, kept for old replay files).  Returns [(index, patch, why)]."""
+    out_ = []
+    sts = [parse_line(l) for l in lines]
+    for j in range(len(ops) - 1, len(sts)):
+        o_ = sts[j]['out']
+        n = int(o_) if o_.isdigit() and o_ != '0' and (ops + tail)[j].endswith('nextnum') else None
+        if n is None:
+            continue
+        nb = pstate(sts[j])['nb']
+        art = sts[j]['arts'].get(n, '')
+        why = None
+        if j == len(ops) - 1:
+            # the faulted call itself: the state file may be stale or torn (its write is what failed), so the answer is judged
+            # against whichever record of that number is on disk before or after the call (selected or last good)
+            recs = [r_ for stx in (sts[j], sts[j - 1]) for r_ in (pstate(stx)['nb'], pstate(stx)['lb'], pstate(stx)['cb']) if r_ and r_['num'] == n]
+            if not any(art.startswith('F%d.' % r_['size']) for r_ in recs):
+                why = 'not intact'
+        elif nb is None or nb['num'] != n or not art.startswith('F%d.' % nb['size']):
+            why = 'not intact'
+        if why:
+            pass
+        elif n in pstate(sts[j])['bad']:
+            # (the fault sentence of C04 does not carry the "not banned before" clause of the kill sentence: a failed write
+            # of state.json legitimately ends in a reset that forgets the ban list - see DESIGN 12.13; what the theorem
+            # C04_fault_safe states, and what is judged here, is the ban list of the state the patch is selected from)
+            why = 'it is on the ban list of the state it is selected from'
+        elif kind == 'relchange':
+            why = 'a patch of another release (fault_in_reset_of_release_change)'
+        if why:
+            out_.append((j, n, why))
+    return out_
 
 
 def run_C04(pid, tier, seed, model_ok=True):
@@ -1872,32 +2026,9 @@ def run_C04(pid, tier, seed, model_ok=True):
                 distinct.add((name, 'F', st))
                 if model_ok and st not in res['model_fail']:
                     divs.append((name, len(ops) - 1, 'no model outcome of a failing step equals the real state (failing real step %d %s)' % (k, where), st, ops, header))
-                sts = [parse_line(l) for l in lines]
-                # patch selected afterwards, in this process and at the next launch
-                for j in range(len(ops) - 1, len(sts)):     # the faulted call itself (if it is a query) and everything after it
-                    out = sts[j]['out']
-                    n = int(out) if out.isdigit() and out != '0' and (ops + tail)[j].endswith('nextnum') else None
-                    if n is None:
-                        continue
-                    nb = pstate(sts[j])['nb']
-                    art = sts[j]['arts'].get(n, '')
-                    why = None
-                    if j == len(ops) - 1:
-                        # the faulted call itself: the state file may be stale (its write is what failed), so the answer is
-                        # judged against whichever record of that number is on disk before or after the call (selected or last good)
-                        recs = [r_ for stx in (sts[j], sts[j - 1]) for r_ in (pstate(stx)['nb'], pstate(stx)['lb'], pstate(stx)['cb']) if r_ and r_['num'] == n]
-                        if not any(art.startswith('F%d.' % r_['size']) for r_ in recs):
-                            why = 'not intact'
-                    elif nb is None or nb['num'] != n or not art.startswith('F%d.' % nb['size']):
-                        why = 'not intact'
-                    if why:
-                        pass
-                    elif n in bad_before:
-                        why = 'banned before the failing call'
-                    elif kinds[name] == 'relchange':
-                        why = 'a patch of another release (fault_in_reset_of_release_change)'
-                    if why:
-                        fails.append((name, j, 'C04: with system call %d %s failing, patch %d is selected afterwards: %s' % (k, where, n, why), ops + tail, header))
+                for (j, n, why) in c04_judge_fail(ops, tail, lines, kinds[name], bad_before):
+                    spec = 'faultspec mode=fail k=%d reads=%d target=%d kind=%s bad=%s' % (k, 1 if 'READ' in where else 0, len(ops), kinds[name], ','.join(str(x) for x in sorted(bad_before)) or '-')
+                    fails.append((name, j, 'C04: with system call %d %s failing, patch %d is selected afterwards: %s' % (k, where, n, why), ops + tail, header + [spec]))
             if len(samples) < 6 and res['crash']:
                 samples.append({'target': name, 'kill_points': len(res['crash']), 'failing_calls': len(res['fail']), 'model_crash_states': len(res['model_crash']),
                                 'example': res['crash'][0][1][:160]})
@@ -2036,7 +2167,8 @@ def run_C07(pid, tier, seed, model_ok=True):
                             for j in range(ti - 1, len(lines)):
                                 out = parse_line(lines[j])['out']
                                 if out in ('2', 'path:2'):
-                                    a['monitor_fail'].append((name, j, 'C07: patch 2 was modified after installation (%s) and is handed out (%s) when a file-system call of the query fails: %s' % (dm, out, where), ops, header))
+                                    a['monitor_fail'].append((name, j, 'C07: patch 2 was modified after installation (%s) and is handed out (%s) when a file-system call of the query fails: %s' % (dm, out, where), ops,
+                                                              header + ['faultspec mode=fail k=%d reads=1 target=%d kind=c07 bad=-' % (k, ti)]))
             a['evaluations'] += nf
             a['dist']['tampered_artifact_x_failing_call_runs'] = nf
         finally:
@@ -2064,7 +2196,9 @@ def run_C14(pid, tier, seed, model_ok=True):
             for oi, order in enumerate(orders):
                 pre = [al.init] + al.seq(PFX[pk]) + ['op kill']
                 hs.append(('ci_%s_%s' % (pk, order), pre + ['t0 ' + iA, 't1 ' + iB, 'order ' + ','.join(order), 'op check - err', 'op curnum', 'op nextnum']))
-        _, impl, ex = run_both(header, hs, work, impl_only=True)
+        _, impl, ex = run_both(header, hs, work, impl_only=True, lockcheck=True)
+        ex, lw = unlocked_writes(ex, dict(hs), header)
+        a['monitor_fail'] += lw
         a['extras'] += ex
         nci = 0
         for name, ops in hs:
